@@ -215,9 +215,13 @@ def signature(S: L.Schema, F: str, kind: str, phase: str, observed: str, v, shp=
     if F == "toml" and (phase in ("decode", "roundtrip") or phase_class == "decode-or-roundtrip"):
         hits = none_fields_without_none_default(S, v)
         if hits:
-            # (a union position swallows the member's MissingField and reports ValueError(<the document>))
-            if any(f'MissingField: Field "{h}"' in observed for h in hits) or \
-                    (phase != "roundtrip" and not phase.endswith("-doc") and ("<- ValueError: {" in observed or observed.startswith("ValueError: {"))):
+            # decode raised on a document from which a None-valued key without a None default was omitted.  The
+            # MissingField is not always visible in the exception chain (a union position swallows it and raises
+            # InvalidFieldValue / ValueError(<document>) `from None`; deep nesting truncates the chain), so any
+            # decode *exception* of these classes on such a value is attributed to the finding; wrong *values* and
+            # every value without such a field stay unattributed.
+            if phase != "roundtrip" and not phase.endswith("-doc") and \
+                    observed.split(":")[0] in ("MissingField", "InvalidFieldValue", "ValueError"):
                 sig["kind"] = "toml-omitted-none-field-without-none-default"
             elif phase == "roundtrip" or (phase_class == "decode-or-roundtrip" and "Error" not in observed.split(":")[0]):
                 sig["kind"] = "toml-omitted-none-field-without-none-default"
@@ -247,7 +251,12 @@ def oracle(ctx: vlib.Ctx, n_schemas: int, n_values: int, focus: str | None = Non
         dialect_mode = rng.random() < 0.3
         S = L.Schema(rng, jsonkind, dialect_mode=dialect_mode)
         depth = rng.choice([1, 2, 2, 3])
-        root = S.new_dc(depth, root=True)
+        if rng.random() < 0.14:
+            # the root is a subclass (adding fields) of a self-referencing class
+            sb = S.new_dc(max(depth - 1, 1), force_self=True)
+            root = S.new_dc(depth, root=True, base=sb.name)
+        else:
+            root = S.new_dc(depth, root=True)
         xds = rng.sample(L.USER_DIALECTS, 2) if dialect_mode else []
         opts = 0
         if jsonkind == "orjson" and rng.random() < 0.5:
@@ -595,7 +604,7 @@ def run(ctx: vlib.Ctx):
     correspondence(ctx)
     broken = bool(ctx.unshown)
     names_oracle(ctx)
-    n_s, n_v = ctx.budget(160, 850), ctx.budget(5, 8)
+    n_s, n_v = ctx.budget(140, 800), ctx.budget(5, 8)
     if broken:      # a proof obligation or the correspondence broke: search harder for a failing input
         n_s = ctx.budget(260, 3000)
     law_fail = oracle(ctx, n_s, n_v)
